@@ -292,7 +292,15 @@ type Param struct {
 	Single string // non-empty: singleton extraction `name: $Single`
 }
 
+// Annot is one item of a function annotation `#[...]`: an identifier (`allow_unused`) or a trigger
+// registration `trigger <Kind> <Event>(Args)` whose callback is the annotated function.
+type Annot struct {
+	Ident string
+	Trig  *Trigger
+}
+
 type Func struct {
+	Annots []Annot
 	Name   string
 	Params []Param
 	Ret    *Type // nil: null
